@@ -374,6 +374,98 @@ theorem rangeCount_cast (start stop step : Rat) :
     simp only [Nat.zero_lt_succ, true_and, hpos]
     split <;> simp
 
+/-! ### options of `compute_spectrogram`, sessions -/
+
+/-- normal form of the axes for every `padded` / `boundary` -/
+theorem stftAxesOpt_ok (padded ext : Bool) (len : Nat) (t0 step w h : Rat) (a : SpecAxes)
+    (hok : stftAxesOpt padded ext len t0 step w h = .ok a) :
+    0 < len ∧ 1 ≤ min (stftNperseg step w) (len : Int) ∧
+    stftNoverlap step w h < min (stftNperseg step w) (len : Int) ∧
+    a = ⟨min (stftNperseg step w) (len : Int), stftNoverlap step w h,
+         ⟨stftTimes (stftFirst ext t0 step (min (stftNperseg step w) (len : Int))) step
+            (min (stftNperseg step w) (len : Int) - stftNoverlap step w h)
+            (stftCountOpt padded ext len (min (stftNperseg step w) (len : Int)) (stftNoverlap step w h)),
+          ((min (stftNperseg step w) (len : Int) - stftNoverlap step w h : Int) : Rat) / (1 / step)⟩,
+         ⟨stftFreqs step (min (stftNperseg step w) (len : Int)),
+          1 / step / (min (stftNperseg step w) (len : Int) : Int)⟩⟩ := by
+  unfold stftAxesOpt at hok
+  generalize min (stftNperseg step w) (len : Int) = N at hok ⊢
+  by_cases h1 : len = 0
+  · simp only [h1, if_true] at hok; exact absurd hok (by simp)
+  by_cases h2 : N < 1
+  · simp only [h1, h2, if_true, if_false] at hok; exact absurd hok (by simp)
+  by_cases h3 : stftNoverlap step w h ≥ N
+  · simp only [h1, h2, h3, if_true, if_false] at hok; exact absurd hok (by simp)
+  simp only [h1, h2, h3, if_false, Except.ok.injEq] at hok
+  exact ⟨Nat.pos_of_ne_zero h1, by omega, by omega, hok.symm⟩
+
+/-- the monitor's reference point may be taken from the axis itself -/
+theorem axisOk_headD (first : Rat) (a : Axis) (h : axisOk first a = true) :
+    axisOk (a.coords.headD 0) a = true := by
+  obtain ⟨coords, st⟩ := a
+  cases coords with
+  | nil => simp [axisOk, increasing, withinStepFrom]
+  | cons c t =>
+    have h0 := ((axisOk_iff first ⟨c :: t, st⟩).mp h).2.1 (by simp)
+    simp only [List.getElem_cons_zero] at h0
+    simpa [h0] using h
+
+/-- an audio axis the session invariant speaks about: an arithmetic progression (spacing `d`) that the
+    monitor accepts relative to its own first coordinate, with a positive advertised step -/
+def Axis.good (a : Axis) : Prop :=
+  0 < a.step ∧ axisOk (a.coords.headD 0) a = true ∧
+  ∃ d : Rat, ∀ i (h : i < a.coords.length), a.coords[i] = a.coords.headD 0 + (i : Rat) * d
+
+theorem lattice_headD (s st : Rat) (n : Nat) (hn : 0 < n) : (lattice s st n).headD 0 = s := by
+  cases n with
+  | zero => omega
+  | succ m => simp [lattice, List.range_succ_eq_map]
+
+theorem good_lattice (s st : Rat) (n : Nat) (hst : 0 < st) : Axis.good ⟨lattice s st n, st⟩ := by
+  refine ⟨hst, axisOk_headD s _ (axisOk_lattice s st n hst), st, fun i h => ?_⟩
+  have hn : 0 < n := by rw [lattice_length] at h; omega
+  simp only [lattice_headD s st n hn, lattice_getElem]
+
+theorem headD_eq_getElem (l : List Rat) (h : 0 < l.length) : l.headD 0 = l[0] := by
+  cases l with
+  | nil => simp at h
+  | cons c t => simp
+
+/-- a contiguous slice (`isel(time=slice(a, b))`) of a good axis is good -/
+theorem good_slice (x : Axis) (a b : Nat) (hx : x.good) : Axis.good ⟨(x.coords.take b).drop a, x.step⟩ := by
+  obtain ⟨hst, hok, d, hd⟩ := hx
+  obtain ⟨hinc, _, hw⟩ := (axisOk_iff _ _).mp hok
+  have hlen : ((x.coords.take b).drop a).length = min b x.coords.length - a := by simp
+  have hget : ∀ i (h : i < ((x.coords.take b).drop a).length),
+      ((x.coords.take b).drop a)[i] = x.coords[a + i]'(by rw [hlen] at h; omega) := by
+    intro i h; simp
+  have hhead : ∀ (h : 0 < ((x.coords.take b).drop a).length),
+      ((x.coords.take b).drop a).headD 0 = x.coords.headD 0 + (a : Rat) * d := by
+    intro h
+    rw [headD_eq_getElem _ h, hget 0 h]
+    have := hd (a + 0) (by rw [hlen] at h; omega)
+    simpa using this
+  refine ⟨hst, ?_, d, fun i h => ?_⟩
+  · rw [axisOk_iff]
+    refine ⟨fun i h => ?_, fun h => ?_, fun i h => ?_⟩
+    · simp only at h ⊢
+      rw [hget i (by omega), hget (i + 1) h]
+      exact hinc (a + i) (by rw [hlen] at h; omega)
+    · simp only at h ⊢
+      rw [headD_eq_getElem _ h]
+    · simp only at h ⊢
+      have hi : i < x.coords.length := by rw [hlen] at h; omega
+      have hai : a + i < x.coords.length := by rw [hlen] at h; omega
+      rw [hget i h, hhead (by omega), hd (a + i) hai]
+      have := hw i hi
+      rw [hd i hi] at this
+      push_cast
+      constructor <;> [have := this.1; have := this.2] <;> linarith
+  · simp only at h ⊢
+    have hai : a + i < x.coords.length := by rw [hlen] at h; omega
+    rw [hget i h, hhead (by omega), hd (a + i) hai]
+    push_cast; ring
+
 
 /-- facts the regenerated symbolic ties may need when the code takes a fast path on a constant -/
 @[simp, grind =] theorem floor_zero : Rat.floor 0 = 0 := by
